@@ -63,8 +63,11 @@ CLAIMED = {
             "mutate default / bound / provided arguments, flat, nested and nested+mapped (clone False/True/list), same or fresh runner, sync, async sequential, async "
             "concurrent under random interleavings; the real call order is replayed through the Lean model and every call's argument contents, results, object identities "
             "and the final caller-visible memory are compared; an implementation-side oracle states the property directly.",
-            BASE_NOTE + "Mapped nested shapes and immutable twins of a default are judged by the oracle only (the memory model is flat). Two genuine defects were repaired "
-            "(fix 800d549: defaults shared between map items; inner bindings cloned under clone=True).", "DESIGN.md §7 C18"),
+            BASE_NOTE + "Nested and mapped shapes are covered by a second, nested memory model (HG.IsoN, sub nodes executed atomically; theorems "
+            "defaults_never_escape_nested, result_from_initial_nested, bound_by_identity_nested, clone_is_fresh, inputs_untouched_nested, flat_embedding, "
+            "and the pre-repair behaviour refuted by shared_default_across_items_witness); a nested case is compared call by call when the real inner call "
+            "order equals the model's (about two thirds of them), otherwise, and for immutable twins of a default, the oracle alone judges. Two genuine "
+            "defects were repaired (fix 800d549: defaults shared between map items; inner bindings cloned under clone=True).", "DESIGN.md §7 C18"),
     "C06": ("proof", "Lean 4 proof: invariant over rename histories (ground-truth tracking) + differential correspondence",
             "Kernel-checked theorems for ALL valid rename histories (any number of batches, swaps, chains, re-used names): reverse/forward maps, "
             "nested-graph resolvers, argument delivery and map_over translation are correct; negative witnesses for the two repaired defects. "
